@@ -102,23 +102,6 @@ static void classify(const CaseSpec &cs, const EncodeResult &er) {
   if (cs.g.npoints >= 65536) count("points_ge_65536");
 }
 
-// Signature of known finding F19: sequential mesh stream with compressed connectivity (method byte 0) in which
-// fewer than 3 bytes per face remain after the face / point counts - the decoder's plausibility check
-// `num_faces > remaining_size / 3` rejects it.
-static bool f19_signature(const EncodeResult &er, const CaseSpec &cs) {
-  if (er.geometry_type != 1 || er.method != 0 || er.bytes.size() < 12) return false;
-  const uint16_t flags = static_cast<uint8_t>(er.bytes[9]) | (static_cast<uint8_t>(er.bytes[10]) << 8);
-  if (flags & 0x8000) return false;
-  size_t off = 11;
-  for (int k = 0; k < 2; ++k) {  // two varints: faces, points
-    while (off < er.bytes.size() && (static_cast<uint8_t>(er.bytes[off]) & 0x80)) ++off;
-    ++off;
-  }
-  if (off >= er.bytes.size()) return false;
-  const size_t remaining = er.bytes.size() - off;
-  return er.bytes[off] == 0 && cs.g.nfaces() > remaining / 3;
-}
-
 // C01 (+ C09 when tracking is on). `which`: 1 = C01 oracle, 9 = C09 oracle only, 0 = both.
 static std::string run_roundtrip(const CaseSpec &cs, int which, const std::vector<std::string> &gen_classes) {
   std::unique_ptr<draco::PointCloud> pc = build_geometry(cs.g);
@@ -871,9 +854,11 @@ static void gen_normal(float *v, std::string *cls, SplitMix *bulk) {
       break;
     }
     case 4: {
-      const double sc = std::pow(10.0, ri(-5, 30));
+      // tiny and huge lengths, up to components at the largest finite float (the abs-sum then exceeds FLT_MAX)
+      const int e = ri(-5, 40);
+      const double sc = e > 38 ? 3.4028234e38 : std::pow(10.0, e);
       for (int k = 0; k < 3; ++k) x[k] *= sc;
-      *cls = "normal_scaled_length";
+      *cls = e > 37 ? "normal_length_near_float_max" : "normal_scaled_length";
       break;
     }
     default: {
@@ -885,7 +870,7 @@ static void gen_normal(float *v, std::string *cls, SplitMix *bulk) {
   }
   for (int k = 0; k < 3; ++k) {
     v[k] = static_cast<float>(x[k]);
-    if (!std::isfinite(v[k])) v[k] = 1e30f;
+    if (!std::isfinite(v[k])) v[k] = x[k] < 0 ? -3.4028234e38f : 3.4028234e38f;
   }
 }
 
